@@ -8,5 +8,6 @@ for seed in "$@"; do
     s=$(date +%s)
     out=$(VERIF_SEED=$seed bin/check $p --tier $tier --no-evidence 2>&1); rc=$?
     echo "seed=$seed $p rc=$rc $(( $(date +%s)-s ))s $(echo "$out" | grep '^VIOLATION\|^INFRA\|^violation' | head -3 | cut -c1-200 | tr '\n' ' ')"
+    if [ $rc -ne 0 ]; then echo "---- full output (tail) of seed=$seed $p ----"; echo "$out" | grep -v '^faults\|^probes' | tail -n 60 | cut -c1-1200; echo "----"; fi
   done
 done
